@@ -69,6 +69,12 @@ def run(tier, seed):
                              "kill_after_ms": rng.choice([0, 0, 150, 400]) if i >= 3 else 0, "tls": rng.choice(["", "", "auto"])})
         obs_rc, crashes_rc = vlib.run_cases(b["drivers"], "TestRaceCases", rc_cases, "c20rc", env={"VERIF_VPLUGIN": b["vplugin"], "VERIF_CASE_TIMEOUT_S": "150"},
                                             shards=min(6, len(rc_cases)), serial=True, timeout=3000)
+        # (4) shutdown while a broker message is inside the stream's send goroutine (held at a hook point)
+        from props import grpccommon as g
+        gb_cases = [{"name": "cs%d" % i, "mux": mux, "pair": "inproc", "tls": "", "launch": "cmd", "sequential": True, "ests": [], "fam": "close-during-send",
+                     "close_during_send": d} for i, (mux, d) in enumerate([(False, "h2p"), (False, "p2h"), (True, "h2p"), (True, "p2h")])]
+        obs_gb, crashes_gb = vlib.run_cases(b["drivers"], "TestGRPCBrokerCases", gb_cases, "c20gb", env={"VERIF_VPLUGIN": b["vplugin"], "VERIF_CASE_TIMEOUT_S": "60"},
+                                            shards=len(gb_cases), serial=True, timeout=600)
     finally:
         if old_env is None:
             os.environ.pop("GORACE", None)
@@ -76,8 +82,11 @@ def run(tier, seed):
             os.environ["GORACE"] = old_env
     by_lc = {c_["name"]: c_ for c_ in lc_cases}
     by_rc = {c_["name"]: c_ for c_ in rc_cases}
-    for name, out in list(crashes_lc.items()) + list(crashes_rc.items()):
-        case = by_lc.get(name) or by_rc.get(name)
+    by_gb = {c_["name"]: c_ for c_ in gb_cases}
+    for name in vlib.hung_cases(obs_gb):
+        rep.violation("c20:hang:close-during-send", "shutdown during a held broker send never finished", {"case": by_gb[name]})
+    for name, out in list(crashes_lc.items()) + list(crashes_rc.items()) + list(crashes_gb.items()):
+        case = by_lc.get(name) or by_rc.get(name) or by_gb.get(name)
         kind = "double-close" if "close of closed channel" in out else "panic"
         rep.violation("c20:%s" % kind, "the process died (%s) during concurrent use: %s" % (kind, out[-400:]), {"case": case, "output": out})
     for name in vlib.hung_cases(obs_lc) + vlib.hung_cases(obs_rc):
@@ -112,8 +121,8 @@ def run(tier, seed):
         seen.add(s)
         rep.violation(s, "data race with a go-plugin frame (host side): %s\n%s" % (r["frames"][:6], r["report"][:1500]), {"report": r})
     cov.update({
-        "evaluations": len(scs) + len(lc_cases) + len(rc_cases),
-        "distinct_nontrivial": len(scs) + len(lc_cases) + len(rc_cases),
+        "evaluations": len(scs) + len(lc_cases) + len(rc_cases) + len(gb_cases),
+        "distinct_nontrivial": len(scs) + len(lc_cases) + len(rc_cases) + len(gb_cases),
         "rule": "schedule = (a) a MuxBroker scenario from the C06/C09 generators incl. TLC graph walks, with concurrent NextId callers; (b) a random call mix on one Client from two goroutines with a delayed "
                 "handshake; (c) 4-8 goroutines issuing Client methods, Dispense, NextId (host and plugin), brokered accept/dial on distinct ids and calls against a real pair whose plugin is also built "
                 "with -race, with Kill from two goroutines racing the operations; all distinct by seeded construction",
